@@ -29,6 +29,7 @@
 -/
 import Yae.Proofs.LexRules
 import Yae.Proofs.ParseFuel
+import Yae.Gen.Guards
 namespace Yae.C12
 open Yae
 
@@ -76,11 +77,9 @@ theorem lex_rule_attempts (ops : List Operator) : (newLexicon ops).length = ops.
 /-- `parse` never runs out of fuel, for every operator table without an operator of kind
 `<END-OF-FILE>`, every token list and every `strtotime` table.
 
-Full statement (no hypothesis on `ops`) is FALSE in the model and in Go: a POSTFIX operator of
+Full statement (no hypothesis on `ops`) is FALSE in the model and in Go: a PREFIX operator of
 kind `<END-OF-FILE>` is applied again and again at the end of the input, because eating the
-end-of-file token does not advance (Go does not terminate).  This cannot be shown by evaluation
-in the kernel (binding powers are opaque `Float`s), it is the reason for `.fuel` recorded in the
-header of `Yae/Model/Parser.lean`. -/
+end-of-file token does not advance (Go does not terminate): `parse_fuel_witness` below. -/
 theorem parse_no_fuel_partial {ops : List Operator} (hops : ∀ o ∈ ops, o.kind ≠ "<END-OF-FILE>")
     (times : List (String × Int)) (toks : List Token) :
     parse ops times toks ≠ .error .fuel :=
@@ -89,12 +88,97 @@ theorem parse_no_fuel_partial {ops : List Operator} (hops : ∀ o ∈ ops, o.kin
 example : ∀ o ∈ [(⟨"+", 7, fixInfixL⟩ : Operator), ⟨"not", 9, fixPrefix⟩],
     o.kind ≠ "<END-OF-FILE>" := by decide
 
+/-- the excluded table: with a PREFIX operator whose kind is the end-of-file marker the model runs
+out of fuel on the empty input (Go: `expr` eats the end-of-file token, which does not advance the
+cursor, finds the prefix rule and calls `expr` again: unbounded recursion).  A postfix or infix
+operator of that kind does not loop: `pos.Range` refuses the position of the end-of-file token. -/
+theorem parse_fuel_witness :
+    (match parse [⟨"<END-OF-FILE>", 7, fixPrefix⟩] [] [] with
+     | .error .fuel => true
+     | _ => false) = true := by
+  decide +kernel
+
 /-- The depth of the parser's call chain is linear: any fuel `≥ 4 * #tokens + 1` will do
 (`parseFuel` hands out `4 * #tokens + 32`). -/
 theorem parseWith_no_fuel {ops : List Operator} (hops : ∀ o ∈ ops, o.kind ≠ "<END-OF-FILE>")
     (times : List (String × Int)) (toks : List Token) {fuel : Nat}
     (hf : 4 * toks.length + 1 ≤ fuel) : parseWith fuel ops times toks ≠ .error .fuel :=
   Yae.parseWith_no_fuel hops times toks hf
+
+/-! ## containment of panics at the API boundary
+
+Go reports every internal failure by `panic`; the API functions turn panics into their error
+result with deferred recovers.  WHICH functions install a recover is regenerated from the source
+on every run (`Gen.panicGuards`: go/ast scan of facade.go, conv/*.go, ext/sql.go, util/err.go) and
+must equal `expectedGuards`.  The call structure of the four entry points (`apiStages`) is
+hand-modelled from facade.go: for every internal stage an entry point runs, the guard that is in
+scope while it runs, or `none`.  `contained_partial`: a stage without a guard in scope is one of
+the three stages that are total functions in the model (so nothing can be raised there): the
+top-level walk of `TypeEnvOf` / `ValEnvOf` (`Yae.typeEnvOf`, `Yae.valEnvOf` return `Except`; the Go
+code tests kinds and nil-ness before every reflect call: findings D30, D31 were exactly such
+unguarded panics and were repaired) and the report renderer (`Yae.Debug.render`: total, and see
+`Yae.C19.render_shows`).  PARTIAL: the call structure is read off the source by hand, not
+extracted; the run-time search for escaping panics is the `api` / `history` / `conv` / `debug`
+streams (`api-panic`, `conv-panic`, `debug-panic`, `process-crash`). -/
+
+/-- the guards the API layer installs (file, function, how) -/
+def expectedGuards : List (String × String × String) := [
+  ("conv/type.go", "typeOfRV", "defer:Recover"),
+  ("conv/val.go", "valOfRV", "defer:Recover"),
+  ("ext/sql.go", "CompileToSql/closure", "defer:literal"),
+  ("facade.go", "Expr.Compile", "defer:backStrace"),
+  ("facade.go", "Expr.backStrace", "helper:recover"),
+  ("facade.go", "Expr.envCheck", "defer:backStrace"),
+  ("facade.go", "Expr.makeCallable/closure", "defer:backStrace"),
+  ("util/err.go", "Recover", "helper:recover")]
+
+theorem guards_tie : Gen.panicGuards = expectedGuards := by decide
+
+inductive Stage where
+  | convTypeTop | convTypeField | convValTop | convValField
+  | lex | parse | desugar | check | compile | envCheck | run | render
+  deriving DecidableEq, Repr
+
+/-- entry point ↦ the stages it runs, each with the guard in scope (function of `expectedGuards`) -/
+def apiStages : List (String × List (Stage × Option String)) := [
+  ("Expr.Compile", [
+    (.convTypeTop, none), (.convTypeField, some "typeOfRV"),
+    (.lex, some "Expr.Compile"), (.parse, some "Expr.Compile"), (.desugar, some "Expr.Compile"),
+    (.check, some "Expr.Compile"), (.compile, some "Expr.Compile")]),
+  ("Callable", [
+    (.convValTop, some "Expr.makeCallable/closure"), (.convValField, some "valOfRV"),
+    (.envCheck, some "Expr.envCheck"), (.run, some "Expr.makeCallable/closure")]),
+  ("Eval", [
+    (.convTypeTop, none), (.convTypeField, some "typeOfRV"),
+    (.lex, some "Expr.Compile"), (.parse, some "Expr.Compile"), (.desugar, some "Expr.Compile"),
+    (.check, some "Expr.Compile"), (.compile, some "Expr.Compile"),
+    (.convValTop, none), (.convValField, some "valOfRV"),
+    (.envCheck, some "Expr.envCheck"), (.run, some "Expr.makeCallable/closure")]),
+  ("Debug", [
+    (.convTypeTop, none), (.convTypeField, some "typeOfRV"),
+    (.lex, some "Expr.Compile"), (.parse, some "Expr.Compile"), (.desugar, some "Expr.Compile"),
+    (.check, some "Expr.Compile"), (.compile, some "Expr.Compile"),
+    (.convValTop, none), (.convValField, some "valOfRV"),
+    (.envCheck, some "Expr.envCheck"), (.run, some "Expr.makeCallable/closure"),
+    (.render, none)])]
+
+/-- the stages that are total functions in the model -/
+def totalStages : List Stage := [.convTypeTop, .convValTop, .render]
+
+/-- every stage an entry point runs is either covered by a guard that the code installs NOW
+(`Gen.panicGuards`, regenerated), or is one of the stages that cannot raise -/
+def stageCovered (st : Stage × Option String) : Bool :=
+  match st.2 with
+  | some g => (Gen.panicGuards.map (·.2.1)).contains g
+  | none => totalStages.contains st.1
+
+theorem contained_partial :
+    (apiStages.all fun e => e.2.all stageCovered) = true := by decide
+
+/-- … and the two helpers through which the guards recover really call `recover()` -/
+theorem helpers_recover :
+    ("facade.go", "Expr.backStrace", "helper:recover") ∈ Gen.panicGuards ∧
+    ("util/err.go", "Recover", "helper:recover") ∈ Gen.panicGuards := by decide
 
 end Yae.C12
 
@@ -104,3 +188,7 @@ end Yae.C12
 #print axioms Yae.C12.lex_rule_attempts
 #print axioms Yae.C12.parse_no_fuel_partial
 #print axioms Yae.C12.parseWith_no_fuel
+#print axioms Yae.C12.parse_fuel_witness
+#print axioms Yae.C12.guards_tie
+#print axioms Yae.C12.contained_partial
+#print axioms Yae.C12.helpers_recover
